@@ -34,9 +34,44 @@ var aProfiles = map[string]aProfile{
 	"C07": {dryRun: 0.05, ejection: 1.0, reloads: 0.1, parkSender: 0.2, spanLimit: 0.2},
 }
 
+// genFullQueue: the outgoing queue (shrunk to a few traces) is exactly full
+// behind a stalled sender when the memory limit is exceeded, so the ejected
+// traces' hand-over meets a full queue.
+func genFullQueue(r *Rng, p *Plan) {
+	c := PickOf(r, 1, 2, 4)
+	p.N["out_queue_cap"] = int64(c)
+	p.N["workers"] = 1
+	p.N["send_ticker_us"] = 50_000
+	p.N["trace_timeout_us"] = 5_000_000
+	p.N["send_delay_us"] = 100_000
+	p.N["max_expired"] = 0
+	p.N["sampler"] = PickOf(r, int64(0), 0, 1, 3)
+	p.N["kept_size"] = 10000
+	p.N["max_alloc"] = 100_000
+	p.N["host_meta"], p.N["rule_reason"], p.N["attrs"] = 0, 0, 0
+	p.Add(Op{K: "park", At: 0, S: "sendTrace"})
+	// c+1 traces with a root: decided soon; the sender takes the first and
+	// stalls, the others fill the queue
+	for k := 0; k <= c; k++ {
+		p.Add(Op{K: "span", At: int64(1000 + 10_000*k), I: int64(k), N: skRoot, M: 1})
+	}
+	// traces without a root: still buffered when the memory limit is exceeded
+	m := r.Range(1, 5)
+	for j := 0; j < m; j++ {
+		p.Add(Op{K: "span", At: int64(300_000 + 20_000*j), I: int64(100 + j), N: skChild, M: 1 | int64(r.Range(0, 6)*97)<<32})
+	}
+	p.Add(Op{K: "heap", At: 600_001, N: 100_000 + PickOf(r, int64(1), 200, 1_000_000)})
+	p.Add(Op{K: "release", At: int64(PickOf(r, 900_000, 1_500_000)), S: "sendTrace"})
+	p.SortOps()
+}
+
 func genA(check string) func(r *Rng, tier string, p *Plan) {
 	return func(r *Rng, tier string, p *Plan) {
 		pr := aProfiles[check]
+		if (check == "C07" || check == "C02") && r.Bool(0.08) {
+			genFullQueue(r, p)
+			return
+		}
 		thorough := tier == "thorough"
 		workers := PickOf(r, 1, 1, 2, 2, 3, 4)
 		if thorough && r.Bool(0.2) {
@@ -229,6 +264,11 @@ func genA(check string) func(r *Rng, tier string, p *Plan) {
 			b := a + PickOf(r, ticker, 3*ticker, 400_000, 2_000_000)
 			p.Add(Op{K: "park", At: a, S: "sendTrace"})
 			p.Add(Op{K: "release", At: b, S: "sendTrace"})
+			if (check == "C07" || check == "C02") && r.Bool(0.4) {
+				// an outgoing queue of a few traces (the shipped one holds 100000): it
+				// fills up behind the stalled sender
+				p.N["out_queue_cap"] = int64(PickOf(r, 1, 2, 4))
+			}
 		}
 		if pr.parkWorker > 0 && r.Bool(0.25) {
 			// a worker stalls for a few tick periods in a gap of the traffic (no
